@@ -39,6 +39,7 @@ import (
 	"go.uber.org/zap/zapcore"
 
 	"go.opentelemetry.io/collector/component"
+	"go.opentelemetry.io/collector/component/componentstatus"
 	"go.opentelemetry.io/collector/confmap"
 	"go.opentelemetry.io/collector/consumer"
 	"go.opentelemetry.io/collector/exporter"
@@ -64,6 +65,12 @@ type v20World struct {
 	picks  []string // select branches observed through the service logger
 	lastPickSig bool
 	panics atomic.Int64 // Shutdown() calls that panicked in the caller's goroutine
+	provLogger *zap.Logger
+	hosts      map[string]component.Host // component key -> the host it was started with (guarded by mu)
+	syncFatal  atomic.Bool               // the exporter's Start reports FatalError itself, synchronously
+	fatalSent  atomic.Int64              // goroutines that entered componentstatus.ReportStatus(FatalError)
+	fatalBack  atomic.Int64              // ... and came back from it
+	wedged     bool // the Run goroutine is stuck for good: do not wait for it
 
 	gen       atomic.Int64 // configuration generation = number of Factories() calls
 	started   map[string]bool
@@ -143,10 +150,19 @@ type v20Comp struct {
 
 func (c *v20Comp) key() string { return fmt.Sprintf("%d/%s", c.gen, c.name) }
 
-func (c *v20Comp) Start(context.Context, component.Host) error {
+func (c *v20Comp) Start(_ context.Context, host component.Host) error {
 	w := c.w
+	w.mu.Lock()
+	w.hosts[c.key()] = host
+	w.mu.Unlock()
 	if c.name == "exp" {
 		w.at("start", c.gen)
+		if w.syncFatal.Swap(false) {
+			// misuse the docs warn against (return the error instead) — but it must not wedge the collector
+			w.fatalSent.Add(1)
+			componentstatus.ReportStatus(host, componentstatus.NewFatalErrorEvent(errors.New("verif: fatal error reported from Start")))
+			w.fatalBack.Add(1)
+		}
 	} else {
 		w.yield()
 	}
@@ -291,7 +307,7 @@ var v20PickMsgs = map[string]string{
 
 func v20New(tb testing.TB) *v20World {
 	w := &v20World{
-		started: map[string]bool{}, shutdown: map[string]int{}, sdGen: map[int]int{}, startedOK: map[int]bool{},
+		started: map[string]bool{}, shutdown: map[string]int{}, sdGen: map[int]int{}, startedOK: map[int]bool{}, hosts: map[string]component.Host{},
 		gateCh: make(chan v20Gate), relCh: make(chan struct{}), runDone: make(chan struct{}), stopBg: make(chan struct{}),
 	}
 	hook := func(e zapcore.Entry) error {
@@ -319,7 +335,8 @@ func v20New(tb testing.TB) *v20World {
 		LoggingOptions: []zap.Option{zap.Hooks(hook)},
 		ConfigProviderSettings: ConfigProviderSettings{ResolverSettings: confmap.ResolverSettings{
 			URIs: []string{"verif:cfg"},
-			ProviderFactories: []confmap.ProviderFactory{confmap.NewProviderFactory(func(confmap.ProviderSettings) confmap.Provider {
+			ProviderFactories: []confmap.ProviderFactory{confmap.NewProviderFactory(func(ps confmap.ProviderSettings) confmap.Provider {
+				w.provLogger = ps.Logger // the logger the collector hands to providers/converters (collectorCore underneath)
 				return &v20Provider{w: w}
 			})},
 		}},
@@ -409,6 +426,26 @@ func (w *v20World) callShutdown(k int) bool {
 	return !panicked.Load()
 }
 
+// reportFatal: a goroutine of component gen/name reports StatusFatalError through the REAL host it was started with
+// (componentstatus.ReportStatus -> graph.HostWrapper.Report -> status reporter -> Host.NotifyComponentStatusChange ->
+// asyncErrorChannel). Returns false if that component has no host yet.
+func (w *v20World) reportFatal(gen int, name string) bool {
+	w.mu.Lock()
+	host := w.hosts[fmt.Sprintf("%d/%s", gen, name)]
+	w.mu.Unlock()
+	if host == nil {
+		return false
+	}
+	w.logf("fatal %d %s", gen, name)
+	w.fatalSent.Add(1)
+	go func() {
+		defer func() { _ = recover() }()
+		componentstatus.ReportStatus(host, componentstatus.NewFatalErrorEvent(errors.New("verif: fatal component error")))
+		w.fatalBack.Add(1)
+	}()
+	return true
+}
+
 func (w *v20World) postAsync() {
 	w.bg.Add(1)
 	go func() {
@@ -495,7 +532,7 @@ func (w *v20World) cleanup() {
 	w.jitter.Store(0)
 	close(w.stopBg)
 	w.cancel()
-	if w.running {
+	if w.running && !w.wedged {
 		select {
 		case <-w.runDone:
 		case <-time.After(5 * time.Second):
@@ -521,6 +558,8 @@ type v20Det struct {
 	pendWErr   bool
 	sigs       []syscall.Signal
 	pendAsync  int
+	pendFatal  int // fatal-error hand-overs of the live service still waiting (abandoned when that service shuts down)
+	sigDropped int // signals offered while the signal channel was full: dropped, exactly as signal.Notify does
 	ctxDone    bool
 	everRun    bool // Running was reached
 	reqAfter   bool // Shutdown() called after Running was first reached
@@ -530,13 +569,16 @@ type v20Det struct {
 	multi      int // select with >= 2 ready branches
 	nops       int
 	bad        bool
+	fatals  int // fatal errors reported through the real host
+	// FatalError is terminal in the status FSM: a second report by the same component instance is an invalid transition
+	fatalUsed map[int]bool
 	skipped int // script tokens that were not applicable where they were due
 	// exhaustive enumeration: called once, at the decision point where the script ran out
 	onScriptEnd func()
 }
 
 func (d *v20Det) ready() int {
-	n := d.pendWatch + d.pendAsync
+	n := d.pendWatch + d.pendAsync + d.pendFatal
 	if len(d.sigs) > 0 {
 		n++
 	}
@@ -594,6 +636,17 @@ func (d *v20Det) release() { d.w.relCh <- struct{}{} }
 // external performs one external event while the Run goroutine is parked / in select / not started / returned.
 func (d *v20Det) external(kind int) {
 	w := d.w
+	if (kind == 3 || kind == 4) && d.at != "done" && len(d.sigs) >= 3 {
+		// capacity reached (make(chan os.Signal, 3)): os/signal delivers with a non-blocking send, the signal is dropped
+		// before it reaches the collector — no label of the model, nothing to observe
+		select {
+		case w.col.signalsChannel <- syscall.SIGHUP:
+			d.bad = true // accounting error of the harness: the channel was not full
+		default:
+			d.sigDropped++
+		}
+		return
+	}
 	if !d.canExternal(kind) {
 		return
 	}
@@ -638,6 +691,22 @@ func (d *v20Det) external(kind int) {
 		w.cancel()
 		d.ctxDone = true
 		d.emit("cancel", d.stable())
+	case 9: // a started component's goroutine reports a fatal error through the real host
+		if d.at == "start" && d.rnd.IntN(2) == 0 {
+			// reported synchronously, on the Run goroutine, from inside the exporter's Start (after the gate is released)
+			w.syncFatal.Store(true)
+			w.logf("fatal-sync %d exp", w.gen.Load())
+		} else if !w.reportFatal(int(w.gen.Load()), "exp") {
+			return
+		}
+		d.pendFatal++
+		d.fatals++
+		if d.fatalUsed == nil {
+			d.fatalUsed = map[int]bool{}
+		}
+		d.fatalUsed[int(w.gen.Load())] = true
+		time.Sleep(200 * time.Microsecond) // let the hand-over block on the unbuffered channel
+		d.emit("post fatal", d.stable())
 	}
 }
 
@@ -656,6 +725,13 @@ func (d *v20Det) canExternal(kind int) bool {
 		return d.at != "done" && d.pendAsync < 2
 	case 8:
 		return !d.ctxDone
+	case 9: // the exporter of the current generation has been handed its host and is not yet shut down
+		// (extensions get the bare host, which is no componentstatus.Reporter: their reports go nowhere)
+		w.mu.Lock()
+		k := fmt.Sprintf("%d/exp", w.gen.Load())
+		ok := w.hosts[k] != nil && w.shutdown[k] == 0
+		w.mu.Unlock()
+		return ok && d.v20FatalEnabled() && d.at != "done" && d.pendFatal < 1 && !d.fatalUsed[int(w.gen.Load())]
 	}
 	return false
 }
@@ -690,7 +766,11 @@ func (d *v20Det) afterSelect() {
 	case "watcherr":
 		d.pendWatch = 0
 	case "async":
-		d.pendAsync--
+		if d.pendAsync > 0 {
+			d.pendAsync--
+		} else {
+			d.pendFatal--
+		}
 	case "sig":
 		if len(d.sigs) > 0 {
 			if d.sigs[0] == syscall.SIGHUP {
@@ -716,7 +796,9 @@ func (d *v20Det) afterSelect() {
 	d.emit("pick "+branch, true)
 }
 
-var v20ExtKinds = map[string]int{"shutdown": 0, "shutdownN": 1, "hup": 3, "term": 4, "watch": 5, "watcherr": 6, "async": 7, "cancel": 8}
+var v20ExtKinds = map[string]int{"shutdown": 0, "shutdownN": 1, "hup": 3, "term": 4, "watch": 5, "watcherr": 6, "async": 7, "cancel": 8, "fatal": 9}
+
+func (d *v20Det) v20FatalEnabled() bool { return true }
 
 // runCase: random walk (or corpus script) over the gates. Script tokens: an external event name, "go" (advance the Run
 // goroutine with outcome ok), "fail" (advance with a failing outcome). After the script / budget the case is finished
@@ -778,7 +860,7 @@ func (d *v20Det) runCase(budget int, corpus []string) {
 				before := d.nops
 				for try := 0; try < 6 && d.nops == before; try++ {
 					// Shutdown() calls and reload triggers are weighted up
-					d.external([]int{0, 1, 2, 3, 3, 3, 3, 5, 5, 5, 4, 6, 7, 8}[d.rnd.IntN(14)])
+					d.external([]int{0, 1, 2, 3, 3, 3, 3, 5, 5, 5, 4, 6, 7, 8, 9, 9}[d.rnd.IntN(16)])
 				}
 				if d.at == "select" && d.ready() > 0 {
 					break
@@ -843,6 +925,7 @@ func (d *v20Det) runCase(budget int, corpus []string) {
 			d.release()
 			d.settle(false)
 			w.sdFail.Store(false)
+			d.pendFatal = 0 // service.Shutdown released the pending hand-overs of that service
 			d.emit("sd"+is+" "+map[bool]string{false: "ok", true: "fail"}[fail], true)
 		case "prov":
 			w.provFail.Store(fail)
@@ -877,6 +960,13 @@ func TestVerifC20RunLoop(t *testing.T) {
 	corpus := [][]string{
 		// DESIGN §C20 finding (1): SIGHUP, then Shutdown() while the reload is in state Closing
 		{"go", "go", "go", "hup", "go", "shutdown", "go", "go", "go"},
+		// audit issue 1: SIGTERM taken by the select, then a component goroutine reports FatalError through the real host
+		// (blocking send on the unbuffered asyncErrorChannel under the status reporter's mutex), then the shutdown proceeds
+		{"go", "go", "go", "term", "fatal", "go", "go", "go"},
+		// the same during a reload: SIGHUP taken, a component of the retiring service reports FatalError
+		{"go", "go", "go", "hup", "fatal", "go", "go", "go", "go"},
+		// two components fail fatally at once: the first report stops the collector, the second arrives during shutdown
+		{"go", "go", "go", "fatal", "go", "fatal", "go", "go"},
 	}
 	timeouts := 0
 	for _, c := range vCases(n) {
@@ -901,9 +991,15 @@ func TestVerifC20RunLoop(t *testing.T) {
 		out.Linef("stat failures %d", d.fails)
 		out.Linef("stat multi_ready_selects %d", d.multi)
 		out.Linef("stat ops %d", d.nops)
+		out.Linef("stat fatal_reports_through_real_host %d", d.fatals)
+		out.Linef("stat signals_dropped_at_capacity %d", d.sigDropped)
 		if d.bad {
 			out.Linef("stat harness_timeouts 1")
-			out.Linef("viol sig=C20/harness/run-goroutine-did-not-reach-expected-point at=%s", d.at)
+			if w.fatalSent.Load() > w.fatalBack.Load() {
+				out.Linef("viol sig=C20/runloop/run-wedged-while-fatal-error-report-pending state=%s: a component's FatalError report has not come back and the Run goroutine stopped making progress", w.col.GetState())
+			} else {
+				out.Linef("viol sig=C20/harness/run-goroutine-did-not-reach-expected-point at=%s", d.at)
+			}
 			timeouts++
 		}
 		if d.reloads > 0 {
@@ -966,6 +1062,10 @@ func TestVerifC20Race(t *testing.T) {
 		if mode == 1 {
 			acts = append(acts, act{[]int{4, 7, 8}[rnd.IntN(3)], time.Duration(rnd.IntN(3000)) * time.Microsecond})
 		}
+		if rnd.IntN(3) == 0 {
+			// a component goroutine reports FatalError through the real host at some point of the reloads / the shutdown
+			acts = append(acts, act{9, time.Duration(rnd.IntN(3000)) * time.Microsecond})
+		}
 		desc := ""
 		for _, a := range acts {
 			desc += fmt.Sprintf("%d@%d,", a.kind, a.delay/time.Microsecond)
@@ -1003,6 +1103,8 @@ func TestVerifC20Race(t *testing.T) {
 					w.postAsync()
 				case 8:
 					w.cancel()
+				case 9:
+					w.reportFatal(int(w.gen.Load()), "exp")
 				}
 			}(a)
 		}
@@ -1021,7 +1123,7 @@ func TestVerifC20Race(t *testing.T) {
 			nev := len(w.events)
 			w.mu.Unlock()
 			if w.col.GetState() == StateRunning && len(w.col.signalsChannel) == 0 && len(w.col.configProvider.Watch()) == 0 &&
-				!w.chanClosed() && !asyncPosted.Load() && w.ctx.Err() == nil && nev == calm {
+				!w.chanClosed() && !asyncPosted.Load() && w.fatalSent.Load() == w.fatalBack.Load() && w.ctx.Err() == nil && nev == calm {
 				// at rest in the select for two consecutive polls with an unchanged event log ... confirm over 30 ms
 				time.Sleep(30 * time.Millisecond)
 				w.mu.Lock()
